@@ -122,6 +122,21 @@ pub fn make_linked_list<'a>(vbar: bool, mut terms: Vec<Unifiable>) -> Unifiable 
 
 } // make_linked_list()
 
+/// Makes a Suiron list which holds exactly the given terms, in order.
+///
+/// Unlike [make_linked_list()](../s_linked_list/fn.make_linked_list.html),
+/// a last term which is itself a list is not spliced in; it stays one element.
+///
+/// # Arguments
+/// * vector of unifiable terms
+/// # Return
+/// [SLinkedList](../unifiable/enum.Unifiable.html#variant.SLinkedList)
+pub fn make_list_of_terms(terms: Vec<Unifiable>) -> Unifiable {
+    let mut list = cons_node!(Nil, Nil, 0, false);
+    for term in terms.into_iter().rev() { list = link_front(term, false, list); }
+    return list;
+} // make_list_of_terms()
+
 /// Compares two characters. Checks for backslash escapes: \\
 ///
 /// If the character indexed in the vector of characters is the same as
@@ -476,7 +491,7 @@ pub fn filter(filter: &Unifiable,
             } // match
         } // while
 
-        let new_list = make_linked_list(false, filtered_terms);
+        let new_list = make_list_of_terms(filtered_terms);
         return Some(new_list);
     }
     return None;
